@@ -9,7 +9,7 @@ TAG=$(basename "$WT")
 declare -A ALT=( [C04-B]="C04 C08" [C09-A]="C09 C08" [C04r3-B]="C04 C08" [C02r3-B]="C02 C07" [C09r3-B]="C09 C07" )
 cd "$WT" || exit 9
 for id in "$@"; do
-  prop=${id%%-*}; prop=${prop%r2}; prop=${prop%r3}; checks=${ALT[$id]:-$prop}
+  prop=${id%%-*}; prop=${prop%r2}; prop=${prop%r3}; prop=${prop%r4}; checks=${ALT[$id]:-$prop}
   PATCHF=/verif/seeded/$id/patch.diff; [ -f /verif/seeded/$id/patch.rebased.diff ] && PATCHF=/verif/seeded/$id/patch.rebased.diff
   git checkout -q -- . ; git checkout -q --detach "$(git -C /repo rev-parse HEAD)"
   if ! git apply --check "$PATCHF" 2>/dev/null; then echo "$id: PATCH-DOES-NOT-APPLY"; continue; fi
